@@ -272,7 +272,7 @@ class ExprMixin:
             if srt == L.DRef:
                 return [(p, SV("dref", z, extra={"_node_by_id": "ref", "_nodes_by_data_id": "lref"}.get(attr, "val")))]
             if srt == L.Val:
-                return [(p, SV("val", z))]
+                return [(p, SV("val", z, extra={"factory": True} if attr == "_node_factory" else None))]
             if srt == L.B:
                 return [(p, BoolV(z))]
         if attr == "__class__":
